@@ -19,6 +19,8 @@ TRUSTED_BASE = [
     "axioms: as printed by Print Assumptions under each theorem of coq/Props/<id>.v (copied below as 'axioms')",
     "extraction: Coq Extraction with ExtrOcamlBasic and ExtrOcamlNativeString (their Extract Inductive/Constant directives for bool, option, unit, list, prod, sumbool, string, ascii); no Extract Constant of our own",
     "driver/main.ml: binary64 NumOps record with Python int/float semantics (libm exp/log), wire syntax, dispatch",
+    "xlate/pyxlate.py: translation of the decision expressions of /repo's source into Gallina (coq/Gen, regenerated and tied to the model on every run)",
+    "IEEE binary64 comparisons satisfy NumLaws: proved for Coq primitive floats in coq/Base/NumF.v (depends on the standard library's FloatAxioms and the Reals/classical axioms Flocq uses; no property theorem imports it)",
     "harness/*.py: generators, canonicalisation, comparison, classification of findings",
     "coq/Spec/*.v: the transcription of the Demes data-model rules and ms semantics that the theorems are stated against",
     "modelled, not verified: CPython 3.12 (attrs, dict order, stable sort, deepcopy), ruamel.yaml, json, argparse, str<->float conversion, libm",
@@ -217,6 +219,8 @@ def tie_stage(chk):
     chk.extra["source_guards"] = dict(sites_total=len(report), sites_tied=sum(1 for r in report if r["status"] == "ok"),
                                       sites_of_this_property=[dict(site=r["site"], function=r["function"], source=r["source"],
                                                                    status=r["status"]) for r in mine])
+    chk.extra["tie_obligations"] = len(mine)
+    chk.extra["tie_discharged"] = sum(1 for r in mine if r["status"] == "ok")
     for r in mine:
         if r["status"] != "ok":
             chk.unproven("tie:" + r["site"],
@@ -253,5 +257,5 @@ def proof_stage(chk):
         chk.log.append("coqchk rc=%d %.1fs axioms=%s" % (rc, dt, ax))
         if rc != 0:
             chk.unproven("coqchk", "coqchk does not accept coq/Props/%s.vo" % chk.pid, dict(detail=out[-2000:]))
-            return len(names), 0, axioms
-    return len(names), len(names), axioms
+            return len(names) + chk.extra.get("tie_obligations", 0), chk.extra.get("tie_discharged", 0), axioms
+    return (len(names) + chk.extra.get("tie_obligations", 0), len(names) + chk.extra.get("tie_discharged", 0), axioms)
